@@ -160,6 +160,13 @@ def runEff (env : Env) (s : PState) (e : Eff) : PState :=
 
 def runAct (env : Env) (s : PState) (a : Nat) : PState := ((env.acts[a]!).effs).foldl (runEff env) s
 
+/-- `lineBreakBefore`: walking back from the offset over blanks, a line feed is met before any other byte -/
+def lineBreakBefore (env : Env) : Nat → Bool
+  | 0 => false
+  | i+1 =>
+    let b := env.input[i]!
+    if b == 10 then true else if b == 32 || b == 9 || b == 13 then lineBreakBefore env i else false
+
 def evalPred (env : Env) (s : PState) (a : Nat) : PState × Bool :=
   let act := env.acts[a]!
   -- a predicate's side effects (addErr) happen in both modes
@@ -168,6 +175,7 @@ def evalPred (env : Env) (s : PState) (a : Nat) : PState × Bool :=
   | .flag f neg => (s, if neg then !(s.cfg.get f) else s.cfg.get f)
   | .const v => (s, v)
   | .customDice => prepareCustom env s
+  | .lineBreakBefore => (s, lineBreakBefore env s.pos)
   | .none => ({ s with broken := some "code predicate without a boolean result" }, false)
   | .unknown w => ({ s with broken := some ("predicate " ++ w) }, false)
 
